@@ -80,6 +80,12 @@ theorem parse_inv {i : Idx} (h : Good i) {doc : Node} (hc : ClassesNodup doc) : 
   have := fold_holds (reset_good h.toKeys) (reset_holds i) (creationOrder doc) hc
   simpa [IdxInv, Idx.parse] using this
 
+/-- The multi-root fallback: a first pass has indexed some elements `es` when `MultipleRootNodeException`
+    is raised; `reset` and the second pass give an index that mirrors the (wrapper-rooted) document. -/
+theorem parse_after_failed_pass {i : Idx} (h : Good i) (es : List Elem) {doc : Node} (hc : ClassesNodup doc) :
+    IdxInv ((es.foldl indexTag i.resetInternal).parse doc) doc :=
+  parse_inv (fold_good (reset_good h.toKeys) es) hc
+
 /-! #### C07b — reindex, for every document and configuration -/
 
 theorem reindex_inv {i : Idx} (h : Good i) {doc : Node} (hc : ClassesNodup doc) (a b c d : Option Bool) :
